@@ -52,12 +52,12 @@ prop("C01", "c01",
 
 prop("C02", "c02",
      "cases = generated plans from dependency-heavy profiles (chains, fans, duplicate names, names from before a barrier, resource-less systems); layout oracle on every plan (dependency strictly earlier in stage or earlier in the same group); "
-     "every 8th plan executed with one dependency source parked inside run() (hold driver) until everything the recovered layout lets finish has finished plus a grace period; verdict by the event-log oracle over the transitive dependency relation of the plan. "
+     "every 4th plan executed with one dependency source parked inside run() (hold driver) until everything the recovered layout lets finish has finished plus a grace period; verdict by the event-log oracle over the transitive dependency relation of the plan. "
      "distinct non-trivial = (plan hash, driver) with >=1 dependency edge and either a completed hold or >=1 dependency pair checked in the log.")
 
 prop("C03", "c03",
      "cases = generated plans from barrier-heavy profiles (leading, trailing, repeated barriers, unrelated systems on both sides, barriers inside batches); layout oracle: max stage before an effective barrier < min stage after it; "
-     "every 8th plan executed with a pre-barrier system parked inside run(); event-log oracle orders every pre/post pair and thread-local systems after everything. "
+     "every 4th plan executed with a pre-barrier system parked inside run(); event-log oracle orders every pre/post pair and thread-local systems after everything. "
      "distinct non-trivial = (plan,layout) in which an effective barrier separates >=1 pair that has neither a conflict nor a dependency.")
 
 prop("C07", "c07",
